@@ -160,3 +160,4 @@ m('c01-es-mil-01', 'C01', ES, '                if peek == b"1" {\n              
 m('c04-en-group-no-marker', 'C04', EN, '                    if ds.marker.is_ordinal() {\n                        b.marker = ds.marker;\n                        b.freeze()\n                    }', '                    if ds.marker.is_ordinal() {\n                        b.freeze()\n                    }', 'A2b-GROUP')
 m('c04-it-group-no-freeze', 'C04', IT, '                    if marker.is_ordinal() {\n                        b.marker = marker;\n                        b.freeze()\n                    }', '                    if marker.is_ordinal() {\n                        b.marker = marker;\n                    }', 'A2b-GROUP')
 m('c08-fr-unsix-31', 'C08', FR, 'const UN_SIX = 63;// all previous OR\'ed', 'const UN_SIX = 31;// all previous OR\'ed', 'A7b-BLOCK')
+m('c07-en-ten-put-then-err', 'C07', EN, '"ten" | "tenth" => b.put(b"10"),', '"ten" | "tenth" => {\n                let r = b.put(b"10");\n                if b.len() > 12 { b.freeze(); Err(Error::Overlap) } else { r }\n            }', 'A8-ARM-ATOMIC')
